@@ -133,6 +133,9 @@ Fixpoint c17_walk (cfg : amap N) (prev : d_obs) (ops : list (d_op (list demo_gro
       forallb (fun jl => existsb (fun jg => N.eqb (fst jg) (fst jl)) m ||
                          option_eqb (list_eqb N.eqb) (lookup_jobs (fst jl) (do_active cur)) (Some (snd jl))) (do_active prev) &&
       forallb (fun jl => amem (fst jl) cfg) (do_active cur) &&
+      (* the explorer tracks exactly the targets of this (the latest) update *)
+      list_eqb N.eqb (do_explorer cur)
+        (sort_set (flat_map (fun jg => match lookup_jobs (fst jg) (do_active cur) with Some l => l | None => [] end) m)) &&
       c17_walk cfg cur ops' seen'
     | DReload jobs =>
       let cfg' := fold_left (fun c jv => aset (fst jv) (snd jv) c) jobs [] in
@@ -141,6 +144,8 @@ Fixpoint c17_walk (cfg : amap N) (prev : d_obs) (ops : list (d_op (list demo_gro
                          else option_eqb (list_eqb N.eqb) (lookup_jobs (fst jl) (do_active cur)) None) (do_active prev) &&
       forallb (fun jl => amem (fst jl) (do_active prev)) (do_active cur) &&
       forallb (fun jl => if amem (fst jl) cfg' then option_eqb (list_eqb N.eqb) (lookup_jobs (fst jl) (do_dropped cur)) (Some (snd jl)) else true) (do_dropped prev) &&
+      (* a reload only ever removes entries from the explorer *)
+      forallb (fun a => existsb (N.eqb a) (do_explorer prev)) (do_explorer cur) &&
       c17_walk cfg' cur ops' seen'
     end &&
     (* the by-hash view is the union of the active lists; init-done iff every configured job has an entry *)
